@@ -172,6 +172,9 @@ func Sub(a, b *Term) *Term {
 	if termEq(a, b) {
 		return IntC(0)
 	}
+	if a.Op == "+" && len(a.Args) == 2 && termEq(a.Args[0], b) {
+		return a.Args[1]
+	}
 	return mk("-", IntS, a, b)
 }
 func Neg(a *Term) *Term {
@@ -643,14 +646,28 @@ func BV2Nat(a *Term) *Term {
 		// bv2nat(int2bv(x)) = x mod 2^w
 		return EMod(a.Args[0], IntB(new(big.Int).Lsh(big.NewInt(1), uint(a.S.W))))
 	}
+	if a.Op == "ite" && (a.Args[1].Op == "const" || a.Args[2].Op == "const") {
+		return Ite(a.Args[0], BV2Nat(a.Args[1]), BV2Nat(a.Args[2]))
+	}
 	return mk("bv2nat", IntS, a)
 }
 func Int2BV(w int, a *Term) *Term {
 	if a.Op == "const" {
 		return BVC(a.V, w)
 	}
-	if a.Op == "bv2nat" && a.Args[0].S.W == w {
-		return a.Args[0]
+	if a.Op == "bv2nat" {
+		x := a.Args[0]
+		switch {
+		case x.S.W == w:
+			return x
+		case x.S.W < w:
+			return ZExt(w-x.S.W, x)
+		default:
+			return Extract(w-1, 0, x)
+		}
+	}
+	if a.Op == "ite" {
+		return Ite(a.Args[0], Int2BV(w, a.Args[1]), Int2BV(w, a.Args[2]))
 	}
 	t := mk("int2bv", BVS(w), a)
 	t.P1 = w
